@@ -117,6 +117,8 @@ pub fn cfg_of(c: &Case) -> Cfg {
             cfg.type_mappings.push(("Option<i16>".into(), "MaybeShort".into()));
             cfg.type_mappings.push(("i8".into(), "Tiny".into()));
         }
+        // a mapping whose value equals its key: the way to exempt a hand-written type from the prefix
+        5 => cfg.type_mappings.push(("User".into(), "User".into())),
         // … and by instances of maps, spelled the way typeshare prints them (no space after the comma)
         4 => {
             cfg.type_mappings.push(("HashMap<String,u32>".into(), "Counts".into()));
@@ -478,7 +480,7 @@ pub fn run(args: &[String]) -> i32 {
                     3 => Ty::Generic("G".into(), vec![a, key]),
                     _ => Ty::Option(Box::new(Ty::Generic("G".into(), vec![key, a]))),
                 };
-                let c = gen_tail(ch, ty, "maps-and-generics", &[0, 1, 2, 4]);
+                let c = gen_tail(ch, ty, "maps-and-generics", &[0, 1, 2, 4, 5]);
                 if c.mapping == 4 && !matches!(c.lang, Lang::TypeScript | Lang::Go | Lang::Python) {
                     acc.out_of_scope += 1; // container mappings are only supported by TS/Go/Python
                     return;
@@ -490,7 +492,7 @@ pub fn run(args: &[String]) -> i32 {
             report::threads(),
             u64::MAX,
         );
-        merge(&mut rep, "maps_and_generics", accs, &stats, json!({"shapes": ["HashMap<K,V>", "Vec<HashMap<K,V>>", "G1<A>", "G<A,K>", "Option<G<K,A>>"], "keys": ["String", "u32", "User"], "argument_chain_constructors": vdepth, "mappings": ["none", "User->Mapped", "G->MappedG", "map instances: HashMap<String,u32>, HashMap<String,String>, HashMap<u32,Vec<u8>>, HashMap<String,User> (TS/Go/Python)"]}));
+        merge(&mut rep, "maps_and_generics", accs, &stats, json!({"shapes": ["HashMap<K,V>", "Vec<HashMap<K,V>>", "G1<A>", "G<A,K>", "Option<G<K,A>>"], "keys": ["String", "u32", "User"], "argument_chain_constructors": vdepth, "mappings": ["none", "User->Mapped", "G->MappedG", "map instances: HashMap<String,u32>, HashMap<String,String>, HashMap<u32,Vec<u8>>, HashMap<String,User> (TS/Go/Python)", "User->User (identity: exempts the type from the prefix)"]}));
     }
     // 3b. a mapped generic base swallows its arguments: whatever stands between the angle brackets, the output is the
     //     one of the same program with `u32` there (differential; no expected text written by hand)
